@@ -101,9 +101,9 @@ macro_rules! dispatch2 {
 }
 
 #[cfg(not(feature = "heaptok"))]
-type MainPad = ();
+type MainPad = tok::Hook;
 #[cfg(feature = "heaptok")]
-type MainPad = Box<u32>;
+type MainPad = tok::HeapPad;
 
 fn main() {
     let argv: Vec<String> = std::env::args().collect();
@@ -143,6 +143,8 @@ fn run(args: &Args, ctx: &mut Ctx, ns: &[usize], elem: &str) {
                 if elem == "wide" {
                     #[cfg(not(feature = "heaptok"))]
                     dispatch!(n, tok::Pad32, sweep::sweep, &mut *ctx);
+                } else if elem == "nodrop" {
+                    dispatch!(n, (), sweep::sweep, &mut *ctx);
                 } else {
                     dispatch!(n, MainPad, sweep::sweep, &mut *ctx);
                 }
@@ -153,6 +155,8 @@ fn run(args: &Args, ctx: &mut Ctx, ns: &[usize], elem: &str) {
                 if elem == "wide" {
                     #[cfg(not(feature = "heaptok"))]
                     dispatch!(n, tok::Pad32, random::random, &mut *ctx);
+                } else if elem == "nodrop" {
+                    dispatch!(n, (), random::random, &mut *ctx);
                 } else {
                     dispatch!(n, MainPad, random::random, &mut *ctx);
                 }
@@ -163,6 +167,8 @@ fn run(args: &Args, ctx: &mut Ctx, ns: &[usize], elem: &str) {
                 if elem == "wide" {
                     #[cfg(not(feature = "heaptok"))]
                     dispatch!(n, tok::Pad32, nonint::nonint, &mut *ctx);
+                } else if elem == "nodrop" {
+                    dispatch!(n, (), nonint::nonint, &mut *ctx);
                 } else {
                     dispatch!(n, MainPad, nonint::nonint, &mut *ctx);
                 }
@@ -170,7 +176,11 @@ fn run(args: &Args, ctx: &mut Ctx, ns: &[usize], elem: &str) {
         }
         "ctor" => {
             for &n in ns {
-                dispatch!(n, MainPad, ctor::ctor, &mut *ctx);
+                if elem == "nodrop" {
+                    dispatch!(n, (), ctor::ctor, &mut *ctx);
+                } else {
+                    dispatch!(n, MainPad, ctor::ctor, &mut *ctx);
+                }
             }
         }
         #[cfg(feature = "has-std")]
@@ -216,7 +226,11 @@ fn run(args: &Args, ctx: &mut Ctx, ns: &[usize], elem: &str) {
         }
         "drain" => {
             for &n in ns {
-                dispatch!(n, MainPad, drain::drain, &mut *ctx);
+                if elem == "nodrop" {
+                    dispatch!(n, (), drain::drain, &mut *ctx);
+                } else {
+                    dispatch!(n, MainPad, drain::drain, &mut *ctx);
+                }
             }
         }
         "iters" => {
@@ -226,7 +240,11 @@ fn run(args: &Args, ctx: &mut Ctx, ns: &[usize], elem: &str) {
         }
         "faults" => {
             for &n in ns {
-                dispatch!(n, MainPad, faults::faults, &mut *ctx);
+                if elem == "nodrop" {
+                    dispatch!(n, (), faults::faults, &mut *ctx);
+                } else {
+                    dispatch!(n, MainPad, faults::faults, &mut *ctx);
+                }
             }
         }
         w => {
